@@ -7,7 +7,7 @@ ASSUMPTIONS = ["the built binary (go build of /repo/main.go) is run in scratch d
                "-no-output suppresses the JSON files as well (main.go returns before writing them): treated as the documented meaning of 'do not output any results'"]
 
 FILES = {"a.txt": "banana band", "b.txt": "an apple\nand a nap", "c.log": "bandana"}
-PROGS = {"find": "find all 'an'", "replace": "replace all 'an' with '<' value '>'", "failing": "find all ("}
+PROGS = {"find": "find all 'an'", "replace": "replace all 'an' with '<' value '>'", "delete": "replace all 'an' with ''", "failing": "find all ("}
 FILESETS = {"one": "a.txt", "several": "*.txt", "glob": "*", "none": "*.nothing"}
 
 
